@@ -1,11 +1,13 @@
 """C07 - Connections are analysed in isolation: results do not depend on other traffic.
 
-Structural clauses decided (DESIGN.md §5 C07):
+Structural clauses decided:
  R1 no cross-flow mutable state is written on the per-packet path: every interior-mutable field (RefCell/Cell/Mutex/
     RwLock/Atomic/OnceCell) of the analyzer / processor / parser types that is written from the per-packet call graph
-    must be in the reviewed allow-list (statistics counters, shutdown flag, result channel)
- R2 every flow-cache operation is keyed by the packet's own full identity; an entry is removed under the key it was found with
+    must be in the reviewed allow-list (statistics counters, shutdown flag, result channel) or be re-initialised before use
+ R2 every HTTP flow-cache operation is keyed by the packet's own full identity; an entry is removed under the key it was found with
  R3 per-flow data is only reached through the looked-up cache entry
+ C08.R3 / C19.R1,R2,R4 the TLS reassembly cache and the TCP timestamp tracker are keyed by the packet's own connection
+ W.R2 every worker gets the configured capacity and configuration unchanged
 """
 from ..engine import cfg as C
 from ..engine import q as Q
